@@ -420,6 +420,17 @@ func getAccountsForPrefix(accounts *analyzer.AccountIndex, prefix string) []stri
 	}
 
 	if accs, ok := accounts.ByPrefix[prefix]; ok {
+		// matching is case-insensitive everywhere else: 'Assets:' must also offer 'assets:cash'
+		lowerPrefix := strings.ToLower(prefix)
+		var folded []string
+		for _, name := range accounts.All {
+			if strings.HasPrefix(strings.ToLower(name), lowerPrefix) {
+				folded = append(folded, name)
+			}
+		}
+		if len(folded) > len(accs) {
+			return folded
+		}
 		return accs
 	}
 
